@@ -556,6 +556,13 @@ fn main() {
             writeln!(out.w, "#PROBE\t{}", kv.join("\t")).unwrap();
         }
         "one" => { let t = unesc(&arg(2)); out.run("one", &t); }
+        // only the token forest of the meta-parse (what tools/c09_witness.py embeds in coq/Front/Witnesses.v)
+        "forest" => {
+            let t = unesc(&arg(2));
+            let mut o = String::new();
+            if let Ok(pairs) = parser::parse(Rule::grammar_rules, &t) { forest_s(pairs, &mut o); if o.is_empty() { o.push_str("()"); } } else { o.push('-'); }
+            writeln!(out.w, "forest|{}\t-\t\t{}\t-", esc(&t), o).unwrap();
+        }
         "file" => { let t = std::fs::read_to_string(arg(2)).unwrap_or_default(); out.run("file", &t); }
         "fixed" => { numeric(&mut out); peeks(&mut out); escapes(&mut out); unterminated(&mut out); longs(&mut out, arg(2) == "big"); }
         // ship <repo> <seed> <mutants per file> <prefixes per file> <shard k> <of m> [all]
